@@ -76,8 +76,8 @@ func (e *Err) UnmarshalJSON(b []byte) error {
 
 // EntryObs is what one entry point returned.
 type EntryObs struct {
-	Items []Value `json:"i"`   // Query: all; First: zero or one
-	Val   bool    `json:"b"`   // Exists, Match, ExistsOrMatch
+	Items []Value `json:"i"` // Query: all; First: zero or one
+	Val   bool    `json:"b"` // Exists, Match, ExistsOrMatch
 	Err   Err     `json:"e"`
 	Bad   string  `json:"bad"` // "" or: nonfinite, foreign, unencodable
 }
